@@ -113,6 +113,23 @@ def c05(seed, tier):
     except Exception as e:  # noqa: BLE001
         return {"evaluations": 0, "distinct_nontrivial": 0, "n_mismatches": 1, "stats": {}, "samples": [],
                 "mismatches": [{"rule": "-", "s": "-", "i": 0, "what": "defining meta-named rules in a subclass of the reader class raised " + type(e).__name__}]}
+    try:
+        from abnf.grammars.misc import load_grammar_rules
+        for n_ in META:
+            r0_ = P.ABNFGrammarRule(n_)
+            for alt_ in {n_.replace("s", "\u017f"), n_.upper().replace("S", "\u017f"), n_.replace("k", "\u212a")} - {n_}:
+                if P.ABNFGrammarRule(alt_) is not r0_ or P.ABNFGrammarRule.get(alt_) is not r0_ or not hasattr(P.ABNFGrammarRule(n_), "definition"):
+                    return {"evaluations": 0, "distinct_nontrivial": 0, "n_mismatches": 1, "stats": {}, "samples": [],
+                            "mismatches": [{"rule": n_, "s": alt_, "i": 0, "what": f"looking the reader's rule {n_!r} up as {alt_!r} (same casefold) does not give the same rule object, or the rule lost its definition"}]}
+
+        class UserImports(P.Rule):
+            grammar = ['own-rule = element / "!" rulename']
+        load_grammar_rules([(n_, P.ABNFGrammarRule(n_)) for n_ in META])(UserImports)
+        for n_ in META:
+            UserImports.create(f'{n_} =/ "!" / %x23 *VCHAR')
+    except Exception as e:  # noqa: BLE001
+        return {"evaluations": 0, "distinct_nontrivial": 0, "n_mismatches": 1, "stats": {}, "samples": [],
+                "mismatches": [{"rule": "-", "s": "-", "i": 0, "what": "a user grammar importing the reader's rules and extending them with =/ raised " + type(e).__name__ + ": " + str(e)[:100]}]}
     inputs = sorted(inputs)
     lines_t, lines_r, plan = ["RRESET"], ["RRFC"], []
     for s in inputs:
@@ -255,6 +272,25 @@ def c06(seed, tier):
                 mism.append({"rule": name, "code_point": c, "implementation_ends": got, "B1_says": want,
                              "after": "two user grammars imported the core definitions under their own names and extended "
                                       "those rules with =/ (" + ", ".join(f"{a} =/ {b}" for (a, _), b in zip(imports, extra_chars)) + ")"})
+    # rule NAMES are case-insensitive by str.casefold(): a spelling with U+017F (long s) or U+212A (Kelvin sign) names the same core rule,
+    # and merely looking it up must not create, replace or hide anything
+    for name in classes:
+        r0 = P.Rule(name)
+        for alt_ in {name.replace("S", "\u017f"), name.replace("s", "\u017f"), name.lower().replace("s", "\u017f"), name.replace("K", "\u212a")} - {name}:
+            for cls in (P.Rule, sub, sub2):
+                try:
+                    got_ = cls(alt_)
+                except Exception as e:  # noqa: BLE001
+                    got_ = type(e).__name__
+                if got_ is not r0 or cls.get(alt_) is not r0 or P.Rule(name) is not r0 or not hasattr(P.Rule(name), "definition"):
+                    mism.append({"rule": name, "what": f"looking the rule up as {alt_!r} (casefolds to {alt_.casefold()!r}) from {cls.__name__} gives {got_!r}, not the core rule; "
+                                                      "or the core rule is no longer what it was"})
+    for name, s_ in (("LWSP", " " * 5000), ("LWSP", " \r\n\t" * 1300), ("LWSP", "\t" * 4097)):
+        try:
+            P.Rule(name).parse_all(s_)
+        except Exception as e:  # noqa: BLE001
+            mism.append({"rule": name, "what": f"a run of {len(s_)} characters of linear white space is rejected: {type(e).__name__}"})
+        n_eval += 1
     # CRLF / LWSP / also every core rule on short strings vs the engine model
     alpha = [" ", "\t", "\r", "\n", "x"]
     L = 6 if tier == "thorough" else 5
